@@ -80,7 +80,9 @@ func c14ServiceHistory(c *core.Ctx, p idxParams, h int) bool {
 	trans := store.IDToRIDCollectionTransformer(func(id string) string { return "svc.item." + id })
 	byKeyParams := []string{"a", "ab", "b", "z"}
 	rg := newRig("svc", func(s *res.Service) {
-		s.SetQueryEventDuration(40 * time.Millisecond)
+		// long enough for the gateway model to send its query requests for every query
+		// event of a mutation (it serves them one after the other) also on a loaded machine
+		s.SetQueryEventDuration(750 * time.Millisecond)
 		s.Handle("item.$id", res.GetModel(func(r res.ModelRequest) { r.NotFound() }))
 		// (A) ordinary resource, no path params
 		s.Handle("all", res.Collection, store.QueryHandler{QueryStore: env.qs, Transformer: trans,
@@ -183,7 +185,10 @@ func c14ServiceHistory(c *core.Ctx, p idxParams, h int) bool {
 		"svc.search?prefix=a&limit=3", "svc.search?prefix=&rev=1", "svc.search?prefix=ab&limit=2&offset=1", "svc.search?prefix=&filter=evenlen",
 		"svc.searchidx.k?prefix=a", "svc.searchidx.x2?prefix=",
 		"svc.lib.v1.all", "svc.lib.v1.search?prefix=a", "svc.lib.v1.search?prefix=&rev=1",
-		"svc.psearch?prefix=a&limit=2", "svc.psearch?prefix=&rev=1", "svc.psearch?prefix=b", "svc.psearch?prefix=&limit=1&offset=1", "svc.psearch?prefix=ab", "svc.psearch?prefix=&filter=hasa"}
+		"svc.psearch?prefix=a&limit=2", "svc.psearch?prefix=&rev=1", "svc.psearch?prefix=b", "svc.psearch?prefix=&limit=1&offset=1", "svc.psearch?prefix=ab", "svc.psearch?prefix=&filter=hasa",
+		// a key filter together with a window: entries the filter rejects lie before and inside the window
+		"svc.search?prefix=&filter=evenlen&offset=1&limit=2", "svc.search?prefix=&filter=hasa&offset=2", "svc.search?prefix=a&filter=evenlen&offset=1&rev=1",
+		"svc.psearch?prefix=&filter=evenlen&offset=1&limit=2&rev=1", "svc.lib.v1.search?prefix=&filter=evenlen&offset=1&limit=3"}
 	var cache []*gwEntry
 	for _, rid := range rids {
 		res0, q, ok := get(rid)
